@@ -376,7 +376,7 @@ func init() {
 
 func init() {
 	properties["C06"] = &property{
-		explanation: "Decides the 'reported through the ok/error result rather than a silently wrong answer' clause of C06 for every call site and return of mat and lapack64: OKFLOW.use — the ok/error/unconverged result of every non-query call to a LAPACK routine or to a mat factorization/solver reaches a branch, a field, a return or another call (def-use reachability on the CFG; explicit advisory discards are a frozen table); OKFLOW.report — no function returns a constant success on the path where a callee's status was false; OKFLOW.cond — all error-returning Solve*/Inverse* methods can return Condition, every finite Condition(x) is returned exactly under x > ConditionTolerance (the one tolerance object), Condition(+Inf) only under a failed status, and receivers that store a cond estimate report it. STRIDE on the factorization files (a strided right-hand side or update vector is addressed with its own increment; its Data is treated as contiguous only under a test of Inc). FACT.normorder — the norm handed to a LAPACK condition estimator is computed before the in-place factorization of the same storage (found and repaired: BandCholesky.Cond used the norm of the factor); FACT.state — Clone/Scale/SymRankOne/ExtendVecSym/RankOne, which rebuild the receiver from another value of the same type, assign every field (found and repaired: LU.RankOne into a fresh receiver left ok == false, so Det was 0 and SolveTo failed); FACTKIND.pair — mat.QR and mat.LQ hand their tau field only to the lapack64 routines of the family that filled it; FACT.condunit — the reciprocal condition number returned by the lapack64 *con estimators reaches a comparison with ConditionTolerance, a Condition(...) conversion or a cond field only through an odd number of inversions (found and repaired: TriDense.InverseTri and TriDense.SolveTo compared rcond itself with the tolerance and never reported an ill-conditioned matrix); NILRECV on the factorization files. Does NOT decide reconstruction identities, update formulas or the numerical consistency of Det/LogDet/Cond across factorizations.",
+		explanation: "Decides the 'reported through the ok/error result rather than a silently wrong answer' clause of C06 for every call site and return of mat and lapack64: OKFLOW.use — the ok/error/unconverged result of every non-query call to a LAPACK routine or to a mat factorization/solver reaches a branch, a field, a return or another call (def-use reachability on the CFG; explicit advisory discards are a frozen table); OKFLOW.report — no function returns a constant success on the path where a callee's status was false; OKFLOW.cond — all error-returning Solve*/Inverse* methods can return Condition, every finite Condition(x) is returned exactly under x > ConditionTolerance (the one tolerance object), Condition(+Inf) only under a failed status, and receivers that store a cond estimate report it. STRIDE on the factorization files (a strided right-hand side or update vector is addressed with its own increment; its Data is treated as contiguous only under a test of Inc). FACT.normorder — the norm handed to a LAPACK condition estimator is computed before the in-place factorization of the same storage (found and repaired: BandCholesky.Cond used the norm of the factor); FACT.state — Clone/Scale/SymRankOne/ExtendVecSym/RankOne, which rebuild the receiver from another value of the same type, assign every field (found and repaired: LU.RankOne into a fresh receiver left ok == false, so Det was 0 and SolveTo failed); FACTKIND.pair — mat.QR and mat.LQ hand their tau field only to the lapack64 routines of the family that filled it; OKFLOW.condpath — in the Solve*/Inverse* methods of the types that keep a cond estimate, every `return nil` is preceded on all paths by the comparison of that estimate with ConditionTolerance (a fast path for raw right-hand sides cannot skip it); FACT.condafter — where a function factorizes storage in place and estimates the condition number (lapack64 *con, or the receiver's updateCond), the estimate is reached only after the factorization, because the estimators work on the factors; FACT.condunit — the reciprocal condition number returned by the lapack64 *con estimators reaches a comparison with ConditionTolerance, a Condition(...) conversion or a cond field only through an odd number of inversions (found and repaired: TriDense.InverseTri and TriDense.SolveTo compared rcond itself with the tolerance and never reported an ill-conditioned matrix); NILRECV on the factorization files. Does NOT decide reconstruction identities, update formulas or the numerical consistency of Det/LogDet/Cond across factorizations.",
 		assumptions: commonAssumptions,
 		run: func(tier string, res *core.Result) {
 			r := okflow.Run(def, core.Pkgs("./mat", "./lapack/lapack64", "./lapack/gonum"))
@@ -399,6 +399,7 @@ func init() {
 			fx := factx.Run(def)
 			fx.Floor("condition_estimator_calls", 7)
 			fx.Floor("condition_sinks", 9)
+			fx.Floor("estimates_in_factorizing_functions", 6)
 			res.Merge(fx)
 			nr := nilrecv.Run(def, core.Scope{Patterns: []string{"./mat"}, Files: func(rel string) bool { return anch[rel] }})
 			nr.Floor("pointer_args", 200)
